@@ -132,6 +132,15 @@ EXPORT errno_t _strremovews_s_chk(char *dest, rsize_t dmax,
     }
 
     /*
+     * nothing but whitespace (or an empty string): the result is empty.
+     * The trailing strip below must not run, it has no lower bound.
+     */
+    if (*dest == '\0') {
+        *orig_dest = '\0';
+        return (EOK);
+    }
+
+    /*
      * shift the text over the leading spaces
      */
     if (orig_dest != dest && *dest) {
